@@ -92,6 +92,7 @@ type Check struct {
 	Components Components
 	Assumptions []string
 	NoShrink   bool // plans are single faults on minimal scenarios already
+	UnstableHash bool // byte sizes in the event log legitimately vary between executions (dynamic messages): replay compares fingerprints only
 }
 
 type Components struct {
@@ -414,7 +415,7 @@ func Replay(path string) (ok bool, msg string) {
 	for i := range v.Violations {
 		if v.Violations[i].Fingerprint(rf.Property) == rf.Fingerprint {
 			hashNote := "event-hash identical"
-			if rf.EventHash != "" && v.SchedHash != rf.EventHash {
+			if rf.EventHash != "" && v.SchedHash != rf.EventHash && !ck.UnstableHash {
 				hashNote = fmt.Sprintf("event-hash differs (%s vs recorded %s)", v.SchedHash, rf.EventHash)
 				return false, "fingerprint reproduced but " + hashNote
 			}
